@@ -345,6 +345,7 @@ class Interp:
         self.hooks = hooks or Hooks()
         self.depth = 0
         self.with_stack = []
+        self.grad_stack = []          # [(context text, True / False / 'unknown' / None)] of the enclosing `with` items
         self._const_cache = {}
         self.trace = []
 
@@ -631,14 +632,16 @@ class Interp:
             self.exec_block(s.finalbody, env, fi)
         elif isinstance(s, ast.With):
             texts = [ast.unparse(i.context_expr) for i in s.items]
-            for t in texts:
+            for t, item in zip(texts, s.items):
                 self.with_stack.append(t)
+                self.grad_stack.append((t, self._grad_mode_of(item.context_expr, env, fi)))
                 self.hooks.on_with(self, t, True, fi)
             try:
                 self.exec_block(s.body, env, fi)
             finally:
                 for t in reversed(texts):
                     self.with_stack.pop()
+                    self.grad_stack.pop()
                     self.hooks.on_with(self, t, False, fi)
         elif isinstance(s, ast.Delete):
             for t in s.targets:
@@ -742,6 +745,23 @@ class Interp:
                 raise self.err(f"subscript store on {obj!r}", target, fi)
         else:
             raise self.err(f"assignment target outside the fragment: `{ast.unparse(target)}`", target, fi)
+
+    def _grad_mode_of(self, ctx_expr, env, fi):
+        """What a `with` item does to autograd recording: True / False when it switches it on / off, "unknown" when it is a
+        grad-mode context whose argument the scenario cannot evaluate, None when it is no grad-mode context at all."""
+        if not isinstance(ctx_expr, ast.Call):
+            return None
+        name = astq.dotted(ctx_expr.func) or ""
+        if name.endswith("no_grad"):
+            return False
+        if name.endswith("enable_grad"):
+            return True
+        if name.endswith("set_grad_enabled") and ctx_expr.args:
+            try:
+                return bool(self.truth_value(self.eval(ctx_expr.args[0], env, fi), ctx_expr.args[0], fi))
+            except (AnalysisError, SimRaise):
+                return "unknown"
+        return None
 
     def iterate(self, it, node, fi):
         if isinstance(it, (list, tuple)):
